@@ -2,6 +2,7 @@ package checks
 
 import (
 	"fmt"
+	"fortio.org/log"
 	"strings"
 	"time"
 
@@ -512,15 +513,42 @@ func runC05(c *core.Ctx) {
 	if nb := c05NestingBoundary(c, do); nb != "" {
 		bounds = append(bounds, nb)
 	}
+	if !c.Expired() {
+		// the log level is configuration: at debug / verbose level the evaluator traces (and prints) the rewritten bodies;
+		// what the program prints must not depend on it. One-parameter functions and single loops.
+		prev := log.GetLogLevel()
+		log.SetLogLevelQuiet(log.Debug)
+		nb := 0
+		okd := c05FnPrograms(false, func(fam, src string) bool {
+			if i := strings.Index(src, "func f("); i < 0 || strings.Contains(src[i:i+strings.IndexByte(src[i:], ')')], ",") {
+				return true
+			}
+			nb++
+			return do("dbg-"+fam, src, nil)
+		})
+		if okd {
+			okd = c05LoopPrograms(false, func(fam, src string) bool {
+				if strings.Count(src, "for ") > 2 {
+					return true
+				}
+				nb++
+				return do("dbg-"+fam, src, nil)
+			})
+		}
+		log.SetLogLevelQuiet(prev)
+		if okd {
+			bounds = append(bounds, fmt.Sprintf("at debug log level: the %d one-parameter function programs and single loops", nb))
+		}
+	}
 	c.P.States = c.P.Traces // every history end state is compared
 	c.P.Bound = strings.Join(bounds, "; ") + "; registers on vs off, each with cache on and off"
 }
 
 func init() {
 	core.Register(&core.Check{
-		ID:    "C05",
-		Level: "model_checking",
-		Rule: "differential exploration of the real evaluator under two configurations (State.NoReg false/true), each with the function cache on and off: exhaustive program families (functions x argument kinds x parameter uses; nested counted loops x variable names x forms x exit kinds x position x scope) run on fresh states, and REPL histories (every sequence of <=3 loop inputs, repetitions up to 20 crossing the 8 register slots) on one persistent state followed by probes. Oracle: identical printed output, shown result, error texts, panic flag for every input. Non-trivial = every case (each contains at least one integer parameter or counted loop); distinct by program text.",
+		ID:          "C05",
+		Level:       "model_checking",
+		Rule:        "differential exploration of the real evaluator under two configurations (State.NoReg false/true), each with the function cache on and off: exhaustive program families (functions x argument kinds x parameter uses; nested counted loops x variable names x forms x exit kinds x position x scope) run on fresh states, and REPL histories (every sequence of <=3 loop inputs, repetitions up to 20 crossing the 8 register slots) on one persistent state followed by probes. Oracle: identical printed output, shown result, error texts, panic flag for every input. Non-trivial = every case (each contains at least one integer parameter or counted loop); distinct by program text.",
 		Assume:      []string{"type/info introspection excluded as the property states", "error texts compared verbatim (EvalOne's error strings)"},
 		QuickCap:    100 * time.Second,
 		ThoroughCap: 20 * time.Minute,
